@@ -47,6 +47,8 @@ def _run_one(args):
     try:
         R, _ = run_property(prop, "quick", root, quiet=True, overrides=overrides)
         keys = {o.key for o in R.violations()}
+        for a_ in getattr(R, "analysis_errors", []):
+            keys.add("ANALYSIS-ERROR:%s" % a_)
         try:
             R.check_floors()
         except AnalysisError as e:
